@@ -209,6 +209,13 @@ def tlc(module, cfg, env, workers=None, tag="tlc", timeout=3600, simulate=None, 
                     stats["distinct"] = int(w[3])
                 except (ValueError, IndexError):
                     pass
+            if line.startswith("The number of states generated:"):
+                try:
+                    n = int(line.split(":")[1].strip().replace(",", ""))
+                    stats["states"] += n
+                    stats["distinct"] += n
+                except ValueError:
+                    pass
             if line.startswith("<") and " line " in line and ">: " in line:
                 # coverage: <Next line 42, col 1 to line 42, col 80 of module X>: 12:345
                 name = line[1:].split(" ", 1)[0]
@@ -2633,7 +2640,157 @@ def check_c11(ctx):
     return rep.finish()
 
 
+# ------------------------------------------------------------------------------ C12 parser fidelity and source ranges
+def ast_node(ast, path):
+    """follow a printer path (spec/PdlSyntax.tla) into the serde JSON of ast::File"""
+    if path == ["endianness"]:
+        return ast["endianness"]
+    node = ast["declarations"][path[1] - 1]
+    i = 2
+    while i < len(path):
+        k = path[i]
+        if k == "field":
+            node = node["fields"][path[i + 1] - 1]; i += 2
+        elif k == "tag":
+            node = node["tags"][path[i + 1] - 1]; i += 2
+        elif k == "sub":
+            node = node["tags"][path[i + 1] - 1]; i += 2
+        elif k == "cons":
+            node = node["constraints"][path[i + 1] - 1]; i += 2
+        elif k == "cond":
+            node = node["cond"]; i += 1
+        else:
+            raise KeyError(k)
+    return node
+
+
+def linecol(text_bytes, off):
+    """line/column of a byte offset, by counting line feeds (pure data)"""
+    before = text_bytes[:off]
+    line = before.count(b"\n")
+    col = off - (before.rfind(b"\n") + 1)
+    return line, col
+
+
+def check_c12(ctx):
+    rep = Report("C12", ctx.tier, ctx.seed)
+    quick = ctx.tier == "quick"
+    descs = kit.build(ctx.tier) + kit.schema_descs(ctx.tier) + kit.syntax_descs(ctx.tier) + \
+        [d for d in kit.c10_descs(ctx.tier) if d["name"] not in ("x_count_of_payload",)]
+    dp = os.path.join(ctx.tmp, "sdescs.ndjson")
+    write_ndjson(dp, descs)
+    ntr = 250 if quick else 6000
+
+    def render_run(tag, allow0x, nearmiss, n):
+        lines, stats = tlc("MC_Syntax", "MC_Syntax.cfg", dict(DESCS=dp, ALLOW0X=allow0x, NEARMISS=nearmiss), workers=1,
+                           simulate="num=%d" % n, extra=["-depth", "4000", "-seed", str(ctx.seed)], tag=tag, timeout=3000)
+        rep.tlc_stats(stats)
+        seen, out = set(), []
+        for x in parse_tagged(lines, "SRC"):
+            key = (x["job"], x["text"])
+            if key not in seen:
+                seen.add(key)
+                out.append(x)
+        return out
+
+    import concurrent.futures
+    with concurrent.futures.ThreadPoolExecutor(3) as ex:
+        fa = ex.submit(render_run, "syn_a", "0", "0", ntr)
+        fb = ex.submit(render_run, "syn_b", "1", "0", max(20, ntr // 10))
+        fc = ex.submit(render_run, "syn_c", "0", "1", ntr)
+        srcs, srcs0x, srcsnm = fa.result(), fb.result(), fc.result()
+    srcs0x = [x for x in srcs0x if "0X" in x["text"]]
+    srcsnm = [x for x in srcsnm if x["miss"]]
+    allsrc = [("valid", x) for x in srcs] + [("0X", x) for x in srcs0x] + [("nearmiss", x) for x in srcsnm]
+    reqs = [dict(rid=i, name="s%d.pdl" % i, src=x["text"], want=["parse"]) for i, (_, x) in enumerate(allsrc)]
+    res = run_driver(ctx.driver(), reqs, tag="c12")
+    # second pass: print the parsed AST back in the canonical style and parse again
+    re_reqs, re_meta = [], []
+
+    def viol(kind, cat, x, detail):
+        d = descs[x["job"] - 1]
+        rep.violation("C12|parser|%s|%s|%s" % (d["name"], cat, kind),
+                      {"desc": d, "pdl": x["text"], "miss": x.get("miss"), "observed": detail})
+
+    for i, (cat, x) in enumerate(allsrc):
+        r = res.get(i, {})
+        p = r.get("parse", {})
+        rep.validated()
+        d = descs[x["job"] - 1]
+        if "panic" in p or "timeout" in r or "abnormal" in r:
+            viol("abnormal:" + norm_msg(p.get("panic", "")), cat, x, p)
+            continue
+        if cat == "nearmiss":
+            if "ok" in p:
+                viol("accepts_near_miss:" + x["miss"], cat, x, {"parsed_as": pdl.ast_to_desc(p["ok"])})
+            elif p.get("emit") != "ok":
+                viol("diagnostic_does_not_render", cat, x, p)
+            continue
+        if "ok" not in p:
+            viol("rejects_valid_text" + (":0X_literal" if cat == "0X" else ""), cat, x, p)
+            continue
+        ast = p["ok"]
+        try:
+            got = pdl.ast_to_desc(ast)
+        except Exception as e:  # noqa
+            viol("ast_unmappable", cat, x, repr(e))
+            continue
+        if not pdl.same_desc(got, d):
+            viol("ast_differs", cat, x, {"parsed_as": got})
+            continue
+        tb = x["text"].encode()
+        bad = None
+        for loc in x["locs"]:
+            try:
+                node = ast_node(ast, loc["path"])
+            except (KeyError, IndexError, TypeError):
+                bad = ("no_node", loc["path"], None)
+                break
+            l = node["loc"]
+            s, e = l["start"], l["end"]
+            want_s = loc["start"]
+            if (s["offset"], s["line"], s["column"]) != (want_s["off"], want_s["line"], want_s["col"]):
+                bad = ("start", loc["path"], l)
+                break
+            if not (loc["endmin"]["off"] <= e["offset"] <= loc["endmax"]["off"]):
+                bad = ("end_outside_[last_token_end,next_token_start]", loc["path"], l)
+                break
+            if (e["line"], e["column"]) != linecol(tb, e["offset"]) or e["offset"] > len(tb) or s["offset"] > e["offset"]:
+                bad = ("end_line_column", loc["path"], l)
+                break
+        if bad:
+            viol("loc_" + bad[0] + ":" + "/".join(str(q) for q in bad[1] if not isinstance(q, int)), cat, x,
+                 {"path": bad[1], "got": bad[2], "predicted": [q for q in x["locs"] if q["path"] == bad[1]]})
+            continue
+        gc = [(c["text"], c["loc"]["start"]["offset"], c["loc"]["start"]["line"], c["loc"]["start"]["column"],
+               c["loc"]["end"]["offset"], c["loc"]["end"]["line"], c["loc"]["end"]["column"]) for c in ast["comments"]]
+        wc = [(c["text"], c["start"]["off"], c["start"]["line"], c["start"]["col"], c["end"]["off"], c["end"]["line"],
+               c["end"]["col"]) for c in x["comments"]]
+        if sorted(gc) != sorted(wc):
+            viol("comments_differ", cat, x, {"got": gc[:6], "predicted": wc[:6]})
+            continue
+        re_reqs.append(dict(rid=len(re_reqs), name="r.pdl", src=pdl.render(got), want=["parse"]))
+        re_meta.append((cat, x, got))
+        if rep.coverage["traces_validated_against_impl"] % 397 == 1:
+            rep.sample({"desc": d["name"], "text": x["text"][:300], "ranges_checked": len(x["locs"]), "comments": len(wc)})
+    res2 = run_driver(ctx.driver(), re_reqs, tag="c12b")
+    for i, (cat, x, got) in enumerate(re_meta):
+        p = res2.get(i, {}).get("parse", {})
+        rep.validated()
+        if "ok" not in p or not pdl.same_desc(pdl.ast_to_desc(p["ok"]), got):
+            viol("reprint_differs", cat, x, p if "ok" not in p else {"reparsed": pdl.ast_to_desc(p["ok"])})
+    rep.notes["valid_renderings"] = len(srcs)
+    rep.notes["renderings_with_0X_literals"] = len(srcs0x)
+    rep.notes["near_miss_renderings"] = len(srcsnm)
+    rep.notes["descriptions"] = len(descs)
+    rep.assumptions += ["a node's range starts at its first token and ends between the end of its last token and the start of the next token "
+                        "(a rule's span may absorb following blanks and comments)",
+                        "Dev_KeywordNeedsBlank: declaration keywords are followed by a blank in every valid rendering (the grammar's keyword rules require it)"]
+    return rep.finish()
+
+
 CHECKS = {p: (lambda ctx, p=p: check_rust_codec(p, ctx)) for p in CODEC_MODES}
+CHECKS["C12"] = check_c12
 CHECKS["C11"] = check_c11
 CHECKS["C10"] = check_c10
 CHECKS["C16"] = check_c16
